@@ -48,9 +48,13 @@ def _mk_machine(col, max_n, raise_sig=None):
                 if raise_sig is not None and sig == raise_sig:
                     raise AssertionError(sig)
 
-        @initialize(g=gg.closed_cfgs(max_n=max_n, min_n=3), pre=st.sampled_from(["flat", "loop", "loop", "branch", "typed", "typed"]), style=st.sampled_from(["num", "bytecode"]))
-        def init(self, g, pre, style):
-            self._apply(["init", gg.graph_to_json(gg.restyle(g, style)), pre])
+        @initialize(g=gg.closed_cfgs(max_n=max_n, min_n=3), mw=gg.multiway_graphs(max_n=8, max_deg=4), pre=st.sampled_from(["flat", "loop", "loop", "branch", "typed", "typed", "mtyped"]), style=st.sampled_from(["num", "bytecode"]))
+        def init(self, g, mw, pre, style):
+            if pre == "mtyped":
+                # a flat graph with many-way blocks, all typed (synthetic exits with several targets, branching blocks with tables)
+                self._apply(["init", gg.graph_to_json(mw), "typed"])
+            else:
+                self._apply(["init", gg.graph_to_json(gg.restyle(g, style)), pre])
 
         def _names(self):
             return sorted(self.ex.real.graph)
